@@ -3,7 +3,7 @@
 (* observation of the implementation must satisfy the reference semantics  *)
 (* of the case's kind.  All lines are judged; the set of rejected line     *)
 (* numbers is printed at the end ("BAD" line) - TLC decides every case.    *)
-EXTENDS TextMatch, ReMatch, Json, IOUtils, TLC
+EXTENDS TextMatch, ReMatch, Cond, Json, IOUtils, TLC
 
 VARIABLES l, bad, known
 TraceLog == ndJsonDeserialize(IOEnv.TRACE)
@@ -13,12 +13,15 @@ CaseOK(c) ==
   CASE c.kind = "text" -> ObsOK(c.pat, c.mods, c.buf, c.obs)
     [] c.kind = "re"   -> StringObsOK(c)
     [] c.kind = "matches" -> c.obs = MatchesOp(c.ast, c.buf, [nocase |-> c.nocase, dotall |-> c.dotall, wide |-> FALSE])
+    [] c.kind = "cond" -> c.obs = Verdict(c.ast, c.env)
     [] OTHER -> FALSE
 
 \* disagreements that carry the signature of a recorded known finding (decided from the case, spec side)
 KnownCase(c) ==
   CASE c.kind = "re" -> IF StringObsOK_D14(c) THEN "D14" ELSE IF StringObsOK_D12(c) THEN "D12"
                         ELSE IF StringObsOK_D17(c) THEN "D17" ELSE "none"
+    [] c.kind = "cond" -> IF HasUndefQuant(c.ast, c.env, NoLoc) THEN "D15"
+                        ELSE IF HasUndefRange(c.ast, c.env, NoLoc) THEN "D19" ELSE "none"
     [] OTHER -> "none"
 
 Init == l = 1 /\ bad = {} /\ known = {}
